@@ -302,6 +302,10 @@ func c08Direct(r *eng.Run) {
 		r.Probe("handler_source_is_a_std_in_memory_reader")
 	}
 	h.State = c08State(r, side)
+	dstFails := r.T.Chance(sim.LFault, 1, 10)
+	if dstFails {
+		dst.WFailAt, dst.WFailN = 0, 0
+	}
 	r.Note("C08 ControlHandler.Handle side=%d disableSrcCiphering=%v frame=%s payload=%x seg=%d", side, disable, frameStr(f), head(f.Payload, 16), src.SegMode)
 	r.Res.Nontrivial = true
 	var err error
@@ -328,6 +332,19 @@ func c08Direct(r *eng.Run) {
 	}
 	e := expectCtrl(f.Op, f.Payload)
 	what := fmt.Sprintf("Handle(%s) side=%d", frameStr(f), side)
+	if dstFails {
+		// The reply could not be written: whatever else is reported, a close
+		// frame that breaks the rules is still reported as the protocol
+		// error it is (what the peer sent is the caller's to know).
+		r.Fault("write_fail")
+		if e.retProto {
+			checkCtrlReturn(r, what+" with a failing reply destination", e, err)
+			r.Probe("invalid_close_with_failing_reply_destination")
+		} else if e.reply > 0 && err == nil {
+			r.FailProp("C16", "failed_write_reported_as_success", "%s: the reply could not be written (destination failed) and the handler returned nil", what)
+		}
+		return
+	}
 	checkReplies(r, what, side, dst.Out, []ctrlExp{e})
 	checkCtrlReturn(r, what, e, err)
 	// Zero-length ping/pong/close need not touch the source; otherwise exactly
